@@ -245,3 +245,68 @@ Lemma for_each_all_state {A R L S} (l:list A) (body:A -> S -> ctl R S S) (ok:A -
 Proof. induction l as [|a l IH]; intros Hb; [reflexivity|]. cbn [for_each forallb].
   rewrite Hb by (left; reflexivity). destruct (ok a); cbn [andb]; [|reflexivity].
   apply IH. intros a' Ha. apply Hb. right. exact Ha. Qed.
+
+(* a list all of whose members are images is the image of a list *)
+Lemma family_as_map {A B} (f:A -> B) (P:A -> Prop) (R:list B) :
+  (forall y, In y R -> exists x, P x /\ y = f x) -> exists Lx, R = map f Lx /\ forall x, In x Lx -> P x.
+Proof. induction R as [|y R IH]; intros H.
+  - exists []. split; [reflexivity|intros x []].
+  - destruct (H y (or_introl eq_refl)) as [x [Hx ->]].
+    destruct IH as [Lx [-> HL]]; [intros y' Hy'; apply H; right; exact Hy'|].
+    exists (x :: Lx). split; [reflexivity|]. intros x' [<-|Hx']; auto. Qed.
+
+Section GaxFam2.
+Variable n : nat.
+Notation W := (worlds n).
+Variable part : list cond.
+Hypothesis Hpn : NoDup (map ckz part).
+Notation F := (layer_of (map ac part)).
+Notation sel := (sel_b true part).
+(* the family returned by get_all_xi_i, as the image of a list with the members of the minimal family *)
+Lemma gax_family_list opt (H phi:pred world) fuel : o_soft opt = [] -> (forall w, o_holds opt w = phi w && H w) -> length W < fuel ->
+  exists Lx opt', gax_model n fuel opt part = Return (map sel Lx, opt') /\ o_pop opt' = o_pop opt /\
+    (forall x, In x Lx <-> In x (minimal (Core.fam world W H F phi))).
+Proof. intros Hs Hh Hf. destruct (gax_family n part Hpn opt H phi fuel Hs Hh Hf) as [R [o' [E1 [E2 E3]]]].
+  destruct (family_as_map sel (fun x => In x (minimal (Core.fam world W H F phi))) R) as [Lx [-> HL]].
+  { intros y Hy. apply E3. exact Hy. }
+  exists Lx, o'. split; [exact E1|]. split; [exact E2|]. intros x. split; [apply HL|].
+  intros Hx. assert (Hin: In (sel x) (map sel Lx)) by (apply E3; exists x; auto).
+  apply in_map_iff in Hin as [y [Ey Hy]].
+  assert (Hlen: forall z, In z (minimal (Core.fam world W H F phi)) -> length z = length part).
+  { intros z Hz. apply minimal_in in Hz as [Hz _]. apply Core.fam_in in Hz as [w [_ [_ [_ <-]]]]. unfold layer_of. rewrite !map_length. reflexivity. }
+  assert (Eb: cset_eqb (sel y) (sel x) = true) by (rewrite Ey; unfold cset_eqb, csubset; rewrite (proj2 (zsubset_in _ _)) by auto; reflexivity).
+  rewrite cset_eqb_sel in Eb by (auto; apply Hlen; auto). apply beq_eq in Eb. subst y. exact Hy. Qed.
+End GaxFam2.
+
+Lemma for_each_any_state_map {A B R L S} (f:A -> B) (l:list A) (body:B -> S -> ctl R S S) (g:A -> bool) (s:S) (r:R) :
+  (forall a, In a l -> body (f a) s = if g a then Return r else Next s) ->
+  @for_each B R L S (map f l) body s = if existsb g l then Return r else Next s.
+Proof. induction l as [|a l IH]; intros Hb; [reflexivity|]. cbn [map for_each existsb].
+  rewrite Hb by (left; reflexivity). destruct (g a); cbn [orb]; [reflexivity|].
+  apply IH. intros a' Ha. apply Hb. right. exact Ha. Qed.
+Lemma for_each_all_state_map {A B R L S} (f:A -> B) (l:list A) (body:B -> S -> ctl R S S) (ok:A -> bool) (s:S) (r:R) :
+  (forall a, In a l -> body (f a) s = if ok a then Next s else Return r) ->
+  @for_each B R L S (map f l) body s = if forallb ok l then Next s else Return r.
+Proof. induction l as [|a l IH]; intros Hb; [reflexivity|]. cbn [map for_each forallb].
+  rewrite Hb by (left; reflexivity). destruct (ok a); cbn [andb]; [|reflexivity].
+  apply IH. intros a' Ha. apply Hb. right. exact Ha. Qed.
+Lemma for_each_break_state_map {A B R L S} (f:A -> B) (l:list A) (body:B -> S * bool -> ctl R (S * bool) (S * bool)) (ok:A -> bool) (s:S) :
+  (forall a, In a l -> body (f a) (s, true) = if ok a then Next (s, true) else Break (s, false)) ->
+  @for_each B R L (S * bool) (map f l) body (s, true) = Next (s, forallb ok l).
+Proof. induction l as [|a l IH]; intros Hb; [reflexivity|]. cbn [map for_each forallb].
+  rewrite Hb by (left; reflexivity). destruct (ok a); cbn [andb]; [|reflexivity].
+  apply IH. intros a' Ha. apply Hb. right. exact Ha. Qed.
+Lemma zfold_min_spec r : forall x, (fold_left Z.min r x = x \/ In (fold_left Z.min r x) r) /\ (fold_left Z.min r x <= x)%Z
+  /\ forall y, In y r -> (fold_left Z.min r x <= y)%Z.
+Proof. induction r as [|a r IH]; intros x; simpl.
+  - split; [left; reflexivity|]. split; [lia|intros y []].
+  - destruct (IH (Z.min x a)) as [H1 [H2 H3]]. split; [|split].
+    + destruct H1 as [H1|H1]; [|right; right; exact H1]. rewrite H1.
+      destruct (Z.min_spec x a) as [[_ E]|[_ E]]; rewrite E; [left; reflexivity|right; left; reflexivity].
+    + lia.
+    + intros y [<-|Hy]; [lia|apply H3; exact Hy]. Qed.
+Lemma py_min_same {R L} (l:list Z) z : In z l -> (forall y, In y l -> (z <= y)%Z) -> @py_min R L l = Next z.
+Proof. destruct l as [|x r]; [intros []|]. intros Hin Hle. simpl. f_equal.
+  destruct (zfold_min_spec r x) as [H1 [H2 H3]].
+  assert (Hm: In (fold_left Z.min r x) (x :: r)) by (destruct H1 as [H1|H1]; [left; symmetry; exact H1|right; exact H1]).
+  specialize (Hle _ Hm). destruct Hin as [<-|Hin]; [lia|]. specialize (H3 _ Hin). lia. Qed.
